@@ -17,9 +17,6 @@ import scipy.sparse as sps
 
 from ..common import q, call_impl
 
-EXTRA_LEAN_MODULES = ("PymotoVerif.Props.C07LDAS",)
-EXTRA_THEOREMS = ["PymotoVerif.C07LDAS.ldas_solver_residual", "PymotoVerif.C07LDAS.ldas_solver_ok", "PymotoVerif.C07LDAS.ldas_solver_ok_history",
-                  "PymotoVerif.C07LDAS.linsolve_eq_ldas", "PymotoVerif.C07LDAS.linsolve_adjoint_ldas"]
 RULE = ("streams: linsolve (matrix class x dense/sparse format x real/complex matrix x real/complex rhs x vector/block x "
         "solver override x hermitian/symmetric flags, incl. FE stiffness matrices with boundary conditions and random "
         "matrices with decoupled dofs), inverse, soe (ALL partitions of index sets n<=4 (5 thorough) + random larger, "
@@ -112,6 +109,16 @@ def rand_matrix(rng, n, cls, cplx):
     elif cls == "csym":  # complex symmetric, not Hermitian
         B = rn(n, n)
         A = (B + B.T) / 2 + (2 + 1j) * n * np.eye(n) / 2
+    elif cls == "dynstiff":  # damped dynamic stiffness K + i w C - w^2 M: complex symmetric, not Hermitian, often indefinite
+        def spd():
+            G = rng.standard_normal((n, n))
+            return G @ G.T / n + np.eye(n)
+        w = rng.uniform(0.5, 2.5)
+        A = spd() * rng.uniform(1, 4) + 1j * w * spd() * rng.uniform(0.2, 1.0) - w ** 2 * spd()
+        A = (A + A.T) / 2
+    elif cls == "csymindef":  # complex symmetric and indefinite
+        B = rn(n, n)
+        A = (B + B.T) / 2 + np.diag(np.where(np.arange(n) % 2 == 0, 3.0, -3.0) * max(1, n / 2) * (1 + 0.5j))
     elif cls == "diag":
         A = np.diag(rng.uniform(0.5, 3.0, n) * rng.choice([-1, 1], n) + (1j * rng.uniform(-1, 1, n) if cplx else 0))
     else:
@@ -179,7 +186,7 @@ def solver_choices(cls, sparse, cplx):
         out += ["DenseQR", "DenseLU"]
         if herm_pd:
             out += ["DenseCholesky", "DenseLDL"]
-        if cls in ("symindef", "csym"):
+        if cls in ("symindef", "csym", "dynstiff", "csymindef"):
             out += ["DenseLDL"]
     if cls == "diag":
         out += ["Diagonal"]
@@ -215,7 +222,9 @@ def _matrix_for(rng, spec, classes, sparse_only=False):
     """common matrix generation; returns (A dense ndarray, cls, cplx, sparse, fmt, info)"""
     cplx = spec.get("cplx", bool(rng.random() < 0.3))
     sparse = True if sparse_only else spec.get("sparse", bool(rng.random() < 0.5))
-    cls = spec.get("cls") or str(rng.choice(classes + (["csym"] if cplx and "general" in classes else [])))
+    cls = spec.get("cls") or str(rng.choice(classes + (["csym", "dynstiff", "csymindef"] if cplx and "general" in classes else [])))
+    if cls in ("csym", "dynstiff", "csymindef"):
+        cplx = True
     info = ""
     left = None
     if cls == "fe":
@@ -260,7 +269,7 @@ def build(spec):
         b = rng.standard_normal(shp) + (1j * rng.standard_normal(shp) if bcplx else 0)
         choices = solver_choices(cls, sparse, cplx)
         sname = spec.get("solver", choices[int(rng.integers(0, len(choices)))] if rng.random() < 0.6 else None)
-        flagmode = spec.get("flags", str(rng.choice(["none", "none", "hermitian", "symmetric"])))
+        flagmode = spec.get("flags", str(rng.choice(["none", "none", "hermitian", "symmetric", "both"])))
         wcplx = bool(cplx or bcplx or (rng.random() < 0.15 and not (sname or "").startswith("CG")))
         w = rng.standard_normal(shp) + (1j * rng.standard_normal(shp) if wcplx else 0)
         c.A, c.b, c.w = A, b, w
@@ -402,9 +411,10 @@ def run_impl(c):
                 kw["solver"] = make_solver(c.solver)
             herm = bool(np.allclose(c.A, c.A.conj().T))
             symm = bool(np.allclose(c.A, c.A.T))
-            if c.flagmode == "hermitian":
+            # truthful user flags (they only save the detection)
+            if c.flagmode in ("hermitian", "both"):
                 kw["hermitian"] = herm
-            elif c.flagmode == "symmetric":
+            if c.flagmode in ("symmetric", "both"):
                 kw["symmetric"] = symm
             m = pm.LinSolve([sA, sb], **kw)
             if not c.lda:
@@ -684,6 +694,18 @@ def specs(ctx):
                 for sname in solver_choices(cls, sparse, cplx):
                     for rep in range(1 if quick else 4):
                         out.append({"stream": "linsolve", "seed": seed(), "cls": cls, "sparse": sparse, "cplx": cplx, "solver": sname})
+    # truthful user flags x matrix class, automatic solver choice (no override): complex symmetric (damped dynamic stiffness,
+    # indefinite, shifted), complex Hermitian, real symmetric; dense and sparse; vector and block right-hand sides
+    for cls, cplx in (("dynstiff", True), ("csymindef", True), ("csym", True), ("spd", True), ("symindef", True),
+                      ("spd", False), ("symindef", False), ("general", True), ("general", False)):
+        for flags in ("none", "symmetric", "hermitian", "both"):
+            for k in (None, 2):
+                for sparse in (False, True):
+                    if sparse and quick and (k is None) != (flags in ("none", "both")):
+                        continue     # quick tier: half of the sparse combinations
+                    for _ in range(1 if quick else 3):
+                        out.append({"stream": "linsolve", "seed": seed(), "cls": cls, "cplx": cplx, "sparse": sparse, "solver": None,
+                                    "flags": flags, "k": k, "decouple": False, "lda": True})
     for _ in range(40 if quick else 600):
         out.append({"stream": "linsolve", "seed": seed()})
     for _ in range(12 if quick else 120):
